@@ -190,8 +190,9 @@ class Check:
         ev = {"property_id": self.prop, "tier": tier(), "seed": seed(), "level": self.level,
               "coverage": cov, "assumptions": self.assumptions,
               "wall_s": round(time.time() - self.t0, 2), "violations": len(self.violations)}
-        os.makedirs(os.path.join(VERIF, "evidence"), exist_ok=True)
-        path = os.path.join(VERIF, "evidence", f"{self.prop}.json")
+        evdir = os.environ.get("VERIF_EVIDENCE_DIR") or os.path.join(VERIF, "evidence")   # (seed trials write elsewhere)
+        os.makedirs(evdir, exist_ok=True)
+        path = os.path.join(evdir, f"{self.prop}.json")
         with open(path + ".tmp", "w", encoding="utf-8") as fh:
             json.dump(ev, fh, indent=1, default=str)
         os.replace(path + ".tmp", path)
